@@ -9,6 +9,47 @@ ALL = ["C%02d" % i for i in range(1, 29)]
 
 # pid -> (engine, category, text, note, technique, design_ref)
 CHECKS = {
+    "C22": dict(
+        engine="Lexer",
+        category="model_checking",
+        text="Every string of length <= 3 (quick) / <= 4 (thorough) over a 24-symbol alphabet "
+             "covering every token-starting class is lexed by the real lexer; TLC validates every "
+             "recorded run against Lexer.tla: tokens tile the input on character boundaries and "
+             "each token's text is in the language of its kind (one recogniser per kind from "
+             "tokenizer.txt), asserts that the record set is the whole enumerated space, and "
+             "compares with an exact maximal-munch model (drift only). Corpus files, random "
+             "Unicode and corpus mutations up to 64 KiB are validated the same way.",
+        note="Exhaustive inside the stated alphabet/length; texts longer than 24 bytes are "
+             "checked for tiling, known kind names and character boundaries only. Trusted: TLC, "
+             "the harness' token dump (Tokens::kind/range), Python's Unicode tables for \\d.",
+        technique="TLA+ trace validation of exhaustive lexer runs (TLC)",
+        ref="DESIGN.md section 4 C22"),
+    "C23": dict(
+        engine="ParserObs",
+        category="model_checking",
+        text="All token sequences of the enumerated spaces (12 tokens x length <= 4 quick; "
+             "12 x <=5, 16 x <=4, 8 x <=6 thorough) are parsed by the real parser, as source file "
+             "and as REPL line, in child processes with stall detection; TLC validates every "
+             "record against ParserObs.tla (terminated, tree leaves = lexer tokens, error "
+             "locations inside the input, nodes+errors linear in tokens) and asserts completeness "
+             "of the enumeration. Corpus, mutants, depth-200 nesting and 64 KiB inputs likewise.",
+        note="The parser itself is not modelled (only its observable contract). A hang is "
+             "observed as a 4 s stall of a child process. Trusted: TLC, the harness' tree walk.",
+        technique="TLA+ trace validation of exhaustive parser runs (TLC)",
+        ref="DESIGN.md section 4 C23"),
+    "C25": dict(
+        engine="LineCol",
+        category="model_checking",
+        text="LineIndex::line_col is evaluated for every string of length <= 6 (quick) / <= 8 "
+             "(thorough) over {a, LF, CR, TAB, e-acute} at every byte offset; TLC validates each "
+             "record against the definition in LineCol.tla (line = newlines before the offset, "
+             "column = offset - line start) and the cardinality of the enumeration. Every "
+             "diagnostic rendered while compiling mutated corpus programs contributes a record "
+             "(newline offsets, range start, 1-based header) validated by the same spec.",
+        note="Exhaustive inside the stated alphabet/length. Trusted: TLC, the harness' parsing of "
+             "the '--> at file:line:col' header.",
+        technique="TLA+ trace validation of exhaustive line-index runs (TLC)",
+        ref="DESIGN.md section 4 C25"),
     "C26": dict(
         engine="TopoSched/TopoImpl",
         category="model_checking",
